@@ -4,6 +4,7 @@
 package dump
 
 import (
+	"crypto/sha1"
 	"encoding/hex"
 	"fmt"
 	"math"
@@ -128,9 +129,11 @@ type Obj struct {
 	Layout    int      `json:"layout"`
 	Chunk     []uint64 `json:"chunk,omitempty"`
 
-	Read    []uint64 `json:"read,omitempty"` // float64 bit patterns
-	ReadRes Res      `json:"read_res"`
-	Reread  string   `json:"reread,omitempty"` // Options.Twice: how a second Read differed
+	Read        []uint64 `json:"read,omitempty"` // float64 bit patterns
+	ReadRes     Res      `json:"read_res"`
+	Reread      string   `json:"reread,omitempty"`       // Options.Twice: how a second Read differed
+	IterSum     string   `json:"iter_sum,omitempty"`     // Options.RetryIter
+	IterRetried int      `json:"iter_retried,omitempty"` // Options.RetryIter
 
 	Strings    []string `json:"strings,omitempty"`
 	StringsRes Res      `json:"strings_res"`
@@ -241,6 +244,11 @@ func trunc(s string, n int) string {
 
 // Options bound what is read (hostile inputs).
 type Options struct {
+	// RetryIter: chunked datasets are also walked with the chunk iterator (at most 64 chunks);
+	// a Chunk call that fails is repeated once on the same iterator (a transient fault is over
+	// by then). Obj.IterSum is a digest of what the chunks finally returned ("" if one of them
+	// failed twice), Obj.IterRetried the number of repeated calls.
+	RetryIter bool
 	// Twice: numeric datasets are read a second time after the first result has been
 	// overwritten by the caller; Obj.Reread says how the second result differs ("" = equal)
 	Twice      bool
@@ -563,6 +571,32 @@ func File(path string, opt Options) *Dump {
 					}
 					return it.Err()
 				}))
+			}
+			if opt.RetryIter && o.Layout == 2 {
+				_ = guard(func() error {
+					it, err := x.ChunkIterator()
+					if err != nil {
+						return err
+					}
+					h := sha1.New()
+					okAll := true
+					for k := 0; k < 64 && it.Next(); k++ {
+						v, err := it.Chunk()
+						if err != nil {
+							o.IterRetried++
+							v, err = it.Chunk() // once more, on the same iterator
+						}
+						if err != nil {
+							okAll = false
+							break
+						}
+						fmt.Fprintf(h, "%v|%v;", it.ChunkCoords(), v)
+					}
+					if okAll && it.Err() == nil {
+						o.IterSum = fmt.Sprintf("%x", h.Sum(nil)[:8])
+					}
+					return nil
+				})
 			}
 		case *hdf5.NamedDatatype:
 			o.Kind = "datatype"
